@@ -15,15 +15,8 @@ except Exception as e: m={"meta_error":str(e)}
 m["verified_by_me"]={"base":"/repo HEAD at verification time (pinned tree + fix commits)","how":"tools/verify_seed.sh","result":res}
 json.dump(m,open(p,'w'),indent=1,ensure_ascii=False)
 PY
-cd /verif; ./build.sh || exit 2
-S=$(mktemp -d /tmp/rsyncverif-intake.XXXXXX); mkdir -p $S/repo
-(cd /repo && tar --exclude=.git -cf - .) | tar -xf - -C $S/repo
-if ! (cd $S/repo && patch -p1 -s --no-backup-if-mismatch < $DST/patch.diff >/dev/null 2>&1); then echo "PATCH DOES NOT APPLY on /repo HEAD"; rm -rf $S; exit 3; fi
-for p in $(./bin/rsyncverif -prop list); do
-  ( mkdir -p $S/v-$p/evidence; cp known_findings.json $S/v-$p/; out=$(./bin/rsyncverif -repo $S/repo -verif $S/v-$p -prop $p -tier quick 2>&1); rc=$?
-    if [ $rc -ne 0 ]; then echo "== $p rc=$rc"; echo "$out" | grep -E '^(VIOLATED|UNDECIDED|CHECK-FAILURE)' | cut -c1-400; fi > $S/res-$p ) &
-  while [ $(jobs -rp | wc -l) -ge ${RV_JOBS:-6} ]; do wait -n; done
-done; wait
-cat $S/res-* 2>/dev/null; own=$(cat $S/res-$ID 2>/dev/null | head -1)
+cd /verif
+out=$(CUT=360 tools/allprops.sh $DST/patch.diff full 2>/dev/null)
+echo "$out" | awk '/^== /{hdr=$0; next} {if(hdr!=""){print hdr; hdr=""} print}'
+own=$(echo "$out" | awk -v id="== $ID" '$0==id{f=1;next} /^== /{f=0} f' | head -1)
 [ -n "$own" ] && echo "OWN-PROPERTY: detected" || echo "OWN-PROPERTY: MISSED"
-rm -rf $S
